@@ -428,3 +428,131 @@ Lemma build_reg_then_overwrite w name k f g ir :
   find_func ir name k = Some g ->
   c_fix (build w [OReg name k f; OLoad ir true]) name k = Some [CIr g].
 Proof. intros H. cbn [build fold_left apply_op c_fix]. unfold load_fix. rewrite H. reflexivity. Qed.
+
+(* ------------------------------------------------------------------ chains that agree as wholes *)
+
+Definition chain_sim (k : nat) (o1 o2 : option chain) : Prop :=
+  match o1, o2 with
+  | Some l1, Some l2 => forall call args s, length args = k -> run_chain call l1 args s = run_chain call l2 args s
+  | None, None => True
+  | _, _ => False
+  end.
+
+Lemma chain_equiv_sim k o1 o2 : chain_equiv k o1 o2 -> chain_sim k o1 o2.
+Proof.
+  destruct o1 as [l1|], o2 as [l2|]; cbn [chain_equiv chain_sim]; try tauto.
+  intros F call args s L. apply (run_chain_equiv call k l1 l2 args s F L).
+Qed.
+
+Record chains_agree (w1 w2 : cworld) : Prop := {
+  ca_fix : forall name k, chain_sim k (c_fix w1 name k) (c_fix w2 name k);
+  ca_var : forall name, ofun_eq (c_var w1 name) (c_var w2 name);
+  ca_dyn : forall name k, c_dyn w1 name k = c_dyn w2 name k
+}.
+
+Lemma chains_agree_equiv w1 w2 : chains_agree w1 w2 -> cworld_equiv w1 w2.
+Proof.
+  intros [Hf Hv Hd] call name args s. unfold cstep. rewrite Hd.
+  destruct (match_rows (c_dyn w2 name (length args)) args s) as [ds de]. destruct de; [reflexivity|].
+  destruct (Resolve.reserved name); [reflexivity|].
+  assert (E : ccall_function call w1 name args s = ccall_function call w2 name args s).
+  { unfold ccall_function. specialize (Hf name (length args)). specialize (Hv name).
+    destruct (c_fix w1 name (length args)) as [l1|], (c_fix w2 name (length args)) as [l2|]; cbn [chain_sim] in Hf; try contradiction.
+    - apply Hf. reflexivity.
+    - destruct (c_var w1 name) as [g1|], (c_var w2 name) as [g2|]; cbn [ofun_eq] in Hv; try contradiction.
+      + rewrite Hv. reflexivity.
+      + reflexivity. }
+  rewrite E. reflexivity.
+Qed.
+
+Theorem chains_interchangeable w1 w2 : chains_agree w1 w2 ->
+  forall n name args s, cquery n w1 name args s = cquery n w2 name args s.
+Proof. intros H. apply cworld_equiv_cquery. apply chains_agree_equiv. exact H. Qed.
+
+(* ------------------------------------------------------------------ a chain against ONE program
+
+   register_function(p, python predicate over the rows); load_script(script with clauses cs2 of p/k, overwrite=False)
+   answers like the single script   p(row_1). .. p(row_n). cs2   - the Python predicate's rows are the FIRST clauses of the
+   predicate, whatever it yields.  (A compiled member that cuts does not stop the chain, a cut in one script does stop the
+   later clauses: so this needs the first member to be cut-free, which rows are.) *)
+
+Definition fin_err (f : fin) : bool := match f with FErr => true | _ => false end.
+
+Lemma run_def_clauses call cs cnt cnt' f args s :
+  compile_clauses cs cnt = Some (fn_body f, cnt') -> Forall good_clause cs ->
+  run_def call (CIr f) args s =
+  (map snd (fst (clausesA call cs (bind_args 0 args, s))), fin_err (snd (clausesA call cs (bind_args 0 args, s)))).
+Proof.
+  intros HC G. cbn [run_def]. unfold run_function.
+  destruct (clauses_ok call cs cnt (fn_body f) cnt' (bind_args 0 args, s) flags0 HC G eq_refl) as [f' [E _]].
+  rewrite E. destruct (snd (clausesA call cs (bind_args 0 args, s))); reflexivity.
+Qed.
+
+Lemma clausesA_facts_app call name rows cs2 : forall args s,
+  Forall (fun row => ground_row row = true /\ length row = length args) rows ->
+  let cf := (bind_args 0 args, s) in
+  clausesA call (map (fact_clause name) rows ++ cs2) cf =
+  (let '(ys, f) := clausesA call (map (fact_clause name) rows) cf in
+   match f with
+   | FNorm => let '(zs, g) := clausesA call cs2 cf in (ys ++ zs, g)
+   | _ => (ys, f)
+   end).
+Proof.
+  induction rows as [|row rest IH]; intros args s F cf.
+  - cbn [map app clausesA]. destruct (clausesA call cs2 cf) as [zs g]. reflexivity.
+  - inversion F as [|? ? [G L] Fr]; subst. cbn [map app clausesA].
+    unfold cf. rewrite (fact_enter name row (bind_args 0 args, s) G). fold cf.
+    destruct (clause_res call (fact_clause name row) cf) as [ys f]. destruct f; try reflexivity.
+    pose proof (IH args s Fr) as E. cbv zeta in E. fold cf in E. rewrite E.
+    destruct (clausesA call (map (fact_clause name) rest) cf) as [ys' f']. destruct f'; try reflexivity.
+    destruct (clausesA call cs2 cf) as [zs g]. rewrite app_assoc. reflexivity.
+Qed.
+
+Theorem python_then_script_is_one_definition call name rows vals cs2 f2 f12 cnt2 cnt2' cnt12 cnt12' args s :
+  Forall (fun row => ground_row row = true /\ length row = length args) rows ->
+  Forall good_clause cs2 ->
+  compile_clauses cs2 cnt2 = Some (fn_body f2, cnt2') ->
+  compile_clauses (map (fact_clause name) rows ++ cs2) cnt12 = Some (fn_body f12, cnt12') ->
+  run_chain call [CNat (native_rows (map row_of rows) vals); CIr f2] args s = run_def call (CIr f12) args s.
+Proof.
+  intros F G2 H2 H12.
+  assert (G12 : Forall good_clause (map (fact_clause name) rows ++ cs2)).
+  { apply Forall_app. split; [|exact G2]. apply Forall_forall. intros c Hc. apply in_map_iff in Hc as [row [<- _]]. apply fact_good. }
+  rewrite run_chain_two, (run_def_clauses call _ _ _ _ args s H12 G12), (run_def_clauses call _ _ _ _ args s H2 G2).
+  cbn [run_def]. rewrite drop_native_rows.
+  pose proof (clausesA_facts_app call name rows cs2 args s F) as E. cbv zeta in E. rewrite E.
+  pose proof (fact_clauses_rows call name rows args s F) as E1. cbv zeta in E1. rewrite E1.
+  destruct (match_rows (map row_of rows) args s) as [xs e]. cbn [fst snd]. destruct e.
+  - cbn [fst snd fin_err]. rewrite map_map. cbn [snd]. rewrite map_id. reflexivity.
+  - destruct (clausesA call cs2 (bind_args 0 args, s)) as [zs g]. cbn [fst snd].
+    rewrite map_app, map_map. cbn [snd]. rewrite map_id. reflexivity.
+Qed.
+
+(* at the level of engines: w has [python predicate over the rows; function of the later script], w' the function compiled
+   from the single definition; everything else is the same: every query is answered alike *)
+Record chained_vs_single (w w' : cworld) (name : str) (k : nat) (rows : list (list sterm)) (vals : list bool) (cs2 : list clause) : Prop := {
+  cs_rows : Forall (fun row => ground_row row = true /\ length row = k) rows;
+  cs_good : Forall good_clause cs2;
+  cs_chain : exists f2 cnt2 cnt2', compile_clauses cs2 cnt2 = Some (fn_body f2, cnt2') /\
+               c_fix w name k = Some [CNat (native_rows (map row_of rows) vals); CIr f2];
+  cs_single : exists f12 cnt12 cnt12', compile_clauses (map (fact_clause name) rows ++ cs2) cnt12 = Some (fn_body f12, cnt12') /\
+               c_fix w' name k = Some [CIr f12];
+  cs_other : forall n0 k0, key_eq (n0, k0) (name, k) = false -> c_fix w' n0 k0 = c_fix w n0 k0;
+  cs_var : forall n0, c_var w' n0 = c_var w n0;
+  cs_dyn : forall n0 k0, c_dyn w' n0 k0 = c_dyn w n0 k0
+}.
+
+Theorem chained_python_predicate_is_first_clauses w w' name k rows vals cs2 :
+  chained_vs_single w w' name k rows vals cs2 ->
+  forall n qname args s, cquery n w qname args s = cquery n w' qname args s.
+Proof.
+  intros [Hrows Hgood [f2 [cnt2 [cnt2' [H2 Hw]]]] [f12 [cnt12 [cnt12' [H12 Hw']]]] Hother Hvar Hdyn].
+  apply chains_interchangeable. split.
+  - intros n0 k0. destruct (key_eq (n0, k0) (name, k)) eqn:K.
+    + apply key_eq_true in K. injection K as -> ->. rewrite Hw, Hw'. cbn [chain_sim]. intros call args s L.
+      rewrite (run_chain_one call (CIr f12)). subst k.
+      eapply python_then_script_is_one_definition; eassumption.
+    + rewrite (Hother _ _ K). apply chain_equiv_sim. apply chain_equiv_refl.
+  - intros n0. rewrite Hvar. apply ofun_eq_refl.
+  - intros n0 k0. symmetry. apply Hdyn.
+Qed.
